@@ -271,7 +271,7 @@ fn random_case(ctx: &Ctx, ch: &mut Ch) -> Outcome {
 
 pub fn def(tier: Tier) -> CheckDef {
     let max_n = tier.pick(1536, 6144);
-    let rounds = tier.pick(2, 20);
+    let rounds = tier.pick(8, 80);
     CheckDef {
         id: "C17",
         level: "exploration",
@@ -282,6 +282,7 @@ pub fn def(tier: Tier) -> CheckDef {
         ],
         idle_limit_s: 45,
         needs_cli: false,
+        fuzz: None,
         parts: vec![
             Part {
                 name: "families",
@@ -305,7 +306,7 @@ pub fn def(tier: Tier) -> CheckDef {
                 run: Box::new(|ctx, r| ctx.prop("random-compositions", r, 300, 2000, random_case)),
                 replay: Some(Box::new(|ctx, inp| match inp {
                     ReplayInput::Choices(c) => random_case(ctx, &mut Ch::new(c)),
-                    ReplayInput::Text(_) => Err(Failure::new("this part replays from choices", "")),
+                    _ => Err(Failure::new("this part replays from choices", "")),
                 })),
             },
         ],
